@@ -231,9 +231,15 @@ def gen_label_case(rng):
             if ix.get('st') is not None and ix['st'] <= 0:
                 ix['st'] = 2
             op = {'k': 'eval', 'on': 'main', 'name': rng.choice(variables), 'ix': ix}
-        elif r < 0.91:
+        elif r < 0.90:
             op = {'k': 'export', 'on': on, 'use_aliases': rng.random() < 0.8}
-        elif kind == 'model' and r < 0.95:
+        elif kind != 'container' and r < 0.92:
+            if rng.random() < 0.5:
+                op = {'k': 'solve', 'on': on, 'start': label(on)['text'] if rng.random() < 0.8 else None,
+                      'end': label(on)['text'] if rng.random() < 0.8 else None}
+            else:
+                op = {'k': 'solve_period', 'on': on, 'period': label(on)['text']}
+        elif kind == 'model' and r < 0.96:
             ts = rng.sample(variables, min(len(variables), rng.choice([1, 2, 3])))
             op = {'k': rng.choice(['ctor', 'from_dataframe', 'from_dataframe']), 'on': 'main',
                   'names': [rng.choice(by[t]) for t in ts], 'vs': [[fresh() for _ in range(n)] for _ in ts],
@@ -394,6 +400,12 @@ def apply_label_op(obj, op, name, classes=None, aliased=False):
             if k == 'export':
                 df = obj.to_dataframe(use_aliases=True) if aliased and op['use_aliases'] else obj.to_dataframe()
                 return ('ok', (df.shape, [ar.plain_text(x) for x in df.index], b.frame_cols(df)), df)
+            if k == 'solve':
+                r = obj.solve(start=op['start'], end=op['end'], max_iter=5, failures='ignore', errors='ignore')
+                return ('ok', repr(r), None)
+            if k == 'solve_period':
+                r = obj.solve_period(op['period'], max_iter=5, failures='ignore', errors='ignore')
+                return ('ok', repr(r), None)
             if k == 'reindex':
                 new = obj.reindex(list(op['labels']))
                 return ('ok', sorted(obj_state(new).items(), key=lambda kv: kv[0]), new)
@@ -472,6 +484,11 @@ def run_label_case(ctx, rep, case, tcases=None):
         rep.dist['label-span-label:' + label_kind(x, m, case['variables'], dict(map(tuple, case.get('sub_m', []))))] += 1
     t_results = []
     t_ok = tcases is not None
+    t_final = None
+
+    def snapshot():
+        main = parts['main'][0]
+        return ';'.join(f'{v}=' + ','.join(str(int(x)) for x in main.__dict__['_' + v].tolist()) for v in case['variables'])
     for i, op in enumerate(case['ops']):
         k = op['k']
         a, p, mm, variables = parts[op['on']]
@@ -480,11 +497,13 @@ def run_label_case(ctx, rep, case, tcases=None):
         if k in ('ctor', 'from_dataframe'):
             op = dict(op, span=case['span'])
             nm_a, nm_p = op['names'], [b.chain_end(mm, x) for x in op['names']]
-        elif k in ('export', 'reindex'):
+        elif k in ('export', 'reindex', 'solve', 'solve_period'):
             nm_a = nm_p = None
         else:
             nm_a, nm_p = op['name'], (op['name'] if k == 'eval' else b.chain_end(mm, op['name']))
         before = series_of(a)
+        if k in ('solve', 'solve_period') and t_final is None:
+            t_final = snapshot()                 # (the solution is not the model's business: its history ends here)
         r_a = apply_label_op(a, op, nm_a, aliased=True)
         r_p = apply_label_op(p, op, nm_p)
         s_a, s_p = state_of(parts, 0), state_of(parts, 1)
@@ -505,13 +524,23 @@ def run_label_case(ctx, rep, case, tcases=None):
                     rep.violate(key, f'op {i} {k}{where} on the span {labels}: {bad} (ALIASES={mm})', case)
                     return k
             continue
+        if k in ('solve', 'solve_period'):
+            rep.dist[f'label-span-op:{k}'] += 1
+            if r_a[:2] != r_p[:2] or s_a != s_p:
+                what = (f"m.solve(start={op['start']!r}, end={op['end']!r})" if k == 'solve' else
+                        f"m.solve_period({op['period']!r})")
+                rep.violate(f'{KEY_DIVERGES}:{k}', f'op {i} {what}{where} gave {r_a[:2]}; the class without the mixin gave '
+                            f'{r_p[:2]}' + ('' if s_a == s_p else '; state: ' + ar.nice_diff(s_a, s_p))
+                            + f' (span {labels}, ALIASES={mm})', case)
+                return 'solve'
+            continue
         if k in ('getitem', 'setitem'):
             if r_a[:2] != r_p[:2] or s_a != s_p:
                 rep.violate(f'{KEY_DIVERGES}:{k}', f'op {i} m[{op["name"]!r}]{where}: {show(r_a)}; the class without the '
                             f'mixin through {nm_p!r}: {show(r_p)}' + ('' if s_a == s_p else '; state: ' + ar.nice_diff(s_a, s_p))
                             + f' (span {labels}, ALIASES={mm})', case)
                 return 'whole'
-            if op['on'] == 'main':
+            if op['on'] == 'main' and t_final is None:
                 t_results.append((op, m_str(r_a)))
             continue
 
@@ -577,19 +606,17 @@ def run_label_case(ctx, rep, case, tcases=None):
                             + ctxt, case)
                 return 'absolute'
             rep.dist['label-absolute-checked'] += 1
-        if op['on'] == 'main' and k != 'eval':
+        if op['on'] == 'main' and k != 'eval' and t_final is None:
             st = ix.get('st')
             if st is None or st >= 1:
                 t_results.append((op, m_str(r_a)))
             elif k == 'set':
                 t_ok = False
     if t_ok and t_results:
-        a = parts['main'][0]
         req = {'m': case['m'], 'span': labels, 'strict': case['strict'],
                'vars': [[v, case['init'][v]] for v in case['variables']],
                'ops': [t_op(op) for op, _ in t_results]}
-        final = ';'.join(f'{v}=' + ','.join(str(int(x)) for x in a.__dict__['_' + v].tolist()) for v in case['variables'])
-        tcases.append((req, ' '.join(r for _, r in t_results) + '|' + final, case))
+        tcases.append((req, ' '.join(r for _, r in t_results) + '|' + (t_final or snapshot()), case))
     return 'ok'
 
 
